@@ -373,7 +373,7 @@ package zerolog
 //@   ensures [C03] len(res.hooks) == len(l.hooks) + len(hooks)
 //@   ensures [C03] forall k in 0..len(l.hooks): res.hooks[k] == l.hooks[k]
 //@   ensures [C03] forall k in 0..len(hooks): res.hooks[len(l.hooks)+k] == hooks[k]
-//@   ensures [C05] len(hooks) > 0 ==> fresh(res.hooks)
+//@   ensures [C03,C05] len(hooks) > 0 ==> fresh(res.hooks)
 //@   ensures [C05] len(hooks) == 0 ==> same(res.hooks, l.hooks)
 
 //@ func (Context).EmbedObject(c, obj) res
@@ -384,7 +384,7 @@ package zerolog
 // log.go: loggers and event creation
 
 //@ spec logctx(b bytes) bool = b == nil || ctxbuf(b)
-//@ track Logger.newEvent
+//@ track Logger.newEvent, Event.Str
 
 //@ func New(w) res
 //@   props C03 C05
@@ -401,6 +401,9 @@ package zerolog
 //@   ensures [C04] res != nil ==> ncalls(done) == old(ncalls(done))
 //@   ensures [C03,C05] res != nil ==> res.w == l.w && res.level == level && res.done == done && same(res.ch, l.hooks) && res.ctx == l.ctx && res.stack == l.stack && res.skipFrame == 0
 //@   ensures [C01,C03] res != nil ==> eventbuf(res.buf) && ((len(res.buf) > 1) == (mode(res.buf) == OBJ_NEXT))
+//@   ensures [C03] res != nil ==> (mode(res.buf) == OBJ_NEXT) == ((level != NoLevel && len(LevelFieldName) != 0) || len(l.context) > 1)
+//@   ensures [C03] ncalls(Event.Str) == old(ncalls(Event.Str)) + ite(res != nil && level != NoLevel && len(LevelFieldName) != 0, 1, 0)
+//@   ensures [C03] res != nil && level != NoLevel && len(LevelFieldName) != 0 ==> same(callarg(Event.Str, old(ncalls(Event.Str)), 1), LevelFieldName) && ncalls(LevelFieldMarshalFunc) == old(ncalls(LevelFieldMarshalFunc)) + 1 && callarg(LevelFieldMarshalFunc, old(ncalls(LevelFieldMarshalFunc)), 0) == level && same(callarg(Event.Str, old(ncalls(Event.Str)), 2), callres(LevelFieldMarshalFunc, old(ncalls(LevelFieldMarshalFunc)), 0))
 
 //@ func (*Logger).Trace(l) res
 //@   props C04
@@ -523,3 +526,77 @@ package zerolog
 //@   flag noovf
 //@   modifies e.skipFrame
 //@   ensures res == e && (e != nil ==> e.skipFrame == old(e.skipFrame) + skip)
+
+// ---------------------------------------------------------------------------
+// log.go: Level text forms (C04). ParseLevel is "first fold-equal match over
+// LevelFieldMarshalFunc(L) for the nine named levels in declaration order,
+// else the decimal number"; MarshalText is LevelFieldMarshalFunc(l). With
+// EqualFold reflexive and the nine texts pairwise different under folding and
+// not numeric (true for the default names), ParseLevel(MarshalText(l)) == l
+// follows; Atoi(Itoa(i)) == i is the trusted library step for the rest.
+
+//@ track strings.EqualFold, LevelFieldMarshalFunc, strconv.Atoi, strconv.Itoa
+
+//@ func (Level).String(l) res
+//@   props C04
+//@   arith int
+//@   ensures l == TraceLevel ==> same(res, LevelTraceValue)
+//@   ensures l == DebugLevel ==> same(res, LevelDebugValue)
+//@   ensures l == InfoLevel ==> same(res, LevelInfoValue)
+//@   ensures l == WarnLevel ==> same(res, LevelWarnValue)
+//@   ensures l == ErrorLevel ==> same(res, LevelErrorValue)
+//@   ensures l == FatalLevel ==> same(res, LevelFatalValue)
+//@   ensures l == PanicLevel ==> same(res, LevelPanicValue)
+//@   ensures l == Disabled ==> res == "disabled"
+//@   ensures l == NoLevel ==> len(res) == 0
+//@   ensures l < TraceLevel || l > Disabled ==> ncalls(strconv.Itoa) == old(ncalls(strconv.Itoa)) + 1 && callarg(strconv.Itoa, old(ncalls(strconv.Itoa)), 0) == l && same(res, callres(strconv.Itoa, old(ncalls(strconv.Itoa)), 0))
+
+//@ func (Level).MarshalText(l) res, err
+//@   props C04
+//@   arith int
+//@   ensures err == nil && ncalls(LevelFieldMarshalFunc) == old(ncalls(LevelFieldMarshalFunc)) + 1 && callarg(LevelFieldMarshalFunc, old(ncalls(LevelFieldMarshalFunc)), 0) == l && eqbytes(res, callres(LevelFieldMarshalFunc, old(ncalls(LevelFieldMarshalFunc)), 0))
+
+//@ func ParseLevel(levelStr) res, err
+//@   props C04
+//@   arith int
+//@   ensures callres(strings.EqualFold, old(ncalls(strings.EqualFold)) + 0, 0) ==> res == TraceLevel && err == nil && ncalls(strings.EqualFold) == old(ncalls(strings.EqualFold)) + 1
+//@   ensures ncalls(strings.EqualFold) > old(ncalls(strings.EqualFold)) + 0 ==> same(callarg(strings.EqualFold, old(ncalls(strings.EqualFold)) + 0, 0), levelStr) && callarg(LevelFieldMarshalFunc, old(ncalls(LevelFieldMarshalFunc)) + 0, 0) == TraceLevel && same(callarg(strings.EqualFold, old(ncalls(strings.EqualFold)) + 0, 1), callres(LevelFieldMarshalFunc, old(ncalls(LevelFieldMarshalFunc)) + 0, 0))
+//@   ensures !callres(strings.EqualFold, old(ncalls(strings.EqualFold)) + 0, 0) && callres(strings.EqualFold, old(ncalls(strings.EqualFold)) + 1, 0) ==> res == DebugLevel && err == nil && ncalls(strings.EqualFold) == old(ncalls(strings.EqualFold)) + 2
+//@   ensures ncalls(strings.EqualFold) > old(ncalls(strings.EqualFold)) + 1 ==> same(callarg(strings.EqualFold, old(ncalls(strings.EqualFold)) + 1, 0), levelStr) && callarg(LevelFieldMarshalFunc, old(ncalls(LevelFieldMarshalFunc)) + 1, 0) == DebugLevel && same(callarg(strings.EqualFold, old(ncalls(strings.EqualFold)) + 1, 1), callres(LevelFieldMarshalFunc, old(ncalls(LevelFieldMarshalFunc)) + 1, 0))
+//@   ensures !callres(strings.EqualFold, old(ncalls(strings.EqualFold)) + 0, 0) && !callres(strings.EqualFold, old(ncalls(strings.EqualFold)) + 1, 0) && callres(strings.EqualFold, old(ncalls(strings.EqualFold)) + 2, 0) ==> res == InfoLevel && err == nil && ncalls(strings.EqualFold) == old(ncalls(strings.EqualFold)) + 3
+//@   ensures ncalls(strings.EqualFold) > old(ncalls(strings.EqualFold)) + 2 ==> same(callarg(strings.EqualFold, old(ncalls(strings.EqualFold)) + 2, 0), levelStr) && callarg(LevelFieldMarshalFunc, old(ncalls(LevelFieldMarshalFunc)) + 2, 0) == InfoLevel && same(callarg(strings.EqualFold, old(ncalls(strings.EqualFold)) + 2, 1), callres(LevelFieldMarshalFunc, old(ncalls(LevelFieldMarshalFunc)) + 2, 0))
+//@   ensures !callres(strings.EqualFold, old(ncalls(strings.EqualFold)) + 0, 0) && !callres(strings.EqualFold, old(ncalls(strings.EqualFold)) + 1, 0) && !callres(strings.EqualFold, old(ncalls(strings.EqualFold)) + 2, 0) && callres(strings.EqualFold, old(ncalls(strings.EqualFold)) + 3, 0) ==> res == WarnLevel && err == nil && ncalls(strings.EqualFold) == old(ncalls(strings.EqualFold)) + 4
+//@   ensures ncalls(strings.EqualFold) > old(ncalls(strings.EqualFold)) + 3 ==> same(callarg(strings.EqualFold, old(ncalls(strings.EqualFold)) + 3, 0), levelStr) && callarg(LevelFieldMarshalFunc, old(ncalls(LevelFieldMarshalFunc)) + 3, 0) == WarnLevel && same(callarg(strings.EqualFold, old(ncalls(strings.EqualFold)) + 3, 1), callres(LevelFieldMarshalFunc, old(ncalls(LevelFieldMarshalFunc)) + 3, 0))
+//@   ensures !callres(strings.EqualFold, old(ncalls(strings.EqualFold)) + 0, 0) && !callres(strings.EqualFold, old(ncalls(strings.EqualFold)) + 1, 0) && !callres(strings.EqualFold, old(ncalls(strings.EqualFold)) + 2, 0) && !callres(strings.EqualFold, old(ncalls(strings.EqualFold)) + 3, 0) && callres(strings.EqualFold, old(ncalls(strings.EqualFold)) + 4, 0) ==> res == ErrorLevel && err == nil && ncalls(strings.EqualFold) == old(ncalls(strings.EqualFold)) + 5
+//@   ensures ncalls(strings.EqualFold) > old(ncalls(strings.EqualFold)) + 4 ==> same(callarg(strings.EqualFold, old(ncalls(strings.EqualFold)) + 4, 0), levelStr) && callarg(LevelFieldMarshalFunc, old(ncalls(LevelFieldMarshalFunc)) + 4, 0) == ErrorLevel && same(callarg(strings.EqualFold, old(ncalls(strings.EqualFold)) + 4, 1), callres(LevelFieldMarshalFunc, old(ncalls(LevelFieldMarshalFunc)) + 4, 0))
+//@   ensures !callres(strings.EqualFold, old(ncalls(strings.EqualFold)) + 0, 0) && !callres(strings.EqualFold, old(ncalls(strings.EqualFold)) + 1, 0) && !callres(strings.EqualFold, old(ncalls(strings.EqualFold)) + 2, 0) && !callres(strings.EqualFold, old(ncalls(strings.EqualFold)) + 3, 0) && !callres(strings.EqualFold, old(ncalls(strings.EqualFold)) + 4, 0) && callres(strings.EqualFold, old(ncalls(strings.EqualFold)) + 5, 0) ==> res == FatalLevel && err == nil && ncalls(strings.EqualFold) == old(ncalls(strings.EqualFold)) + 6
+//@   ensures ncalls(strings.EqualFold) > old(ncalls(strings.EqualFold)) + 5 ==> same(callarg(strings.EqualFold, old(ncalls(strings.EqualFold)) + 5, 0), levelStr) && callarg(LevelFieldMarshalFunc, old(ncalls(LevelFieldMarshalFunc)) + 5, 0) == FatalLevel && same(callarg(strings.EqualFold, old(ncalls(strings.EqualFold)) + 5, 1), callres(LevelFieldMarshalFunc, old(ncalls(LevelFieldMarshalFunc)) + 5, 0))
+//@   ensures !callres(strings.EqualFold, old(ncalls(strings.EqualFold)) + 0, 0) && !callres(strings.EqualFold, old(ncalls(strings.EqualFold)) + 1, 0) && !callres(strings.EqualFold, old(ncalls(strings.EqualFold)) + 2, 0) && !callres(strings.EqualFold, old(ncalls(strings.EqualFold)) + 3, 0) && !callres(strings.EqualFold, old(ncalls(strings.EqualFold)) + 4, 0) && !callres(strings.EqualFold, old(ncalls(strings.EqualFold)) + 5, 0) && callres(strings.EqualFold, old(ncalls(strings.EqualFold)) + 6, 0) ==> res == PanicLevel && err == nil && ncalls(strings.EqualFold) == old(ncalls(strings.EqualFold)) + 7
+//@   ensures ncalls(strings.EqualFold) > old(ncalls(strings.EqualFold)) + 6 ==> same(callarg(strings.EqualFold, old(ncalls(strings.EqualFold)) + 6, 0), levelStr) && callarg(LevelFieldMarshalFunc, old(ncalls(LevelFieldMarshalFunc)) + 6, 0) == PanicLevel && same(callarg(strings.EqualFold, old(ncalls(strings.EqualFold)) + 6, 1), callres(LevelFieldMarshalFunc, old(ncalls(LevelFieldMarshalFunc)) + 6, 0))
+//@   ensures !callres(strings.EqualFold, old(ncalls(strings.EqualFold)) + 0, 0) && !callres(strings.EqualFold, old(ncalls(strings.EqualFold)) + 1, 0) && !callres(strings.EqualFold, old(ncalls(strings.EqualFold)) + 2, 0) && !callres(strings.EqualFold, old(ncalls(strings.EqualFold)) + 3, 0) && !callres(strings.EqualFold, old(ncalls(strings.EqualFold)) + 4, 0) && !callres(strings.EqualFold, old(ncalls(strings.EqualFold)) + 5, 0) && !callres(strings.EqualFold, old(ncalls(strings.EqualFold)) + 6, 0) && callres(strings.EqualFold, old(ncalls(strings.EqualFold)) + 7, 0) ==> res == Disabled && err == nil && ncalls(strings.EqualFold) == old(ncalls(strings.EqualFold)) + 8
+//@   ensures ncalls(strings.EqualFold) > old(ncalls(strings.EqualFold)) + 7 ==> same(callarg(strings.EqualFold, old(ncalls(strings.EqualFold)) + 7, 0), levelStr) && callarg(LevelFieldMarshalFunc, old(ncalls(LevelFieldMarshalFunc)) + 7, 0) == Disabled && same(callarg(strings.EqualFold, old(ncalls(strings.EqualFold)) + 7, 1), callres(LevelFieldMarshalFunc, old(ncalls(LevelFieldMarshalFunc)) + 7, 0))
+//@   ensures !callres(strings.EqualFold, old(ncalls(strings.EqualFold)) + 0, 0) && !callres(strings.EqualFold, old(ncalls(strings.EqualFold)) + 1, 0) && !callres(strings.EqualFold, old(ncalls(strings.EqualFold)) + 2, 0) && !callres(strings.EqualFold, old(ncalls(strings.EqualFold)) + 3, 0) && !callres(strings.EqualFold, old(ncalls(strings.EqualFold)) + 4, 0) && !callres(strings.EqualFold, old(ncalls(strings.EqualFold)) + 5, 0) && !callres(strings.EqualFold, old(ncalls(strings.EqualFold)) + 6, 0) && !callres(strings.EqualFold, old(ncalls(strings.EqualFold)) + 7, 0) && callres(strings.EqualFold, old(ncalls(strings.EqualFold)) + 8, 0) ==> res == NoLevel && err == nil && ncalls(strings.EqualFold) == old(ncalls(strings.EqualFold)) + 9
+//@   ensures ncalls(strings.EqualFold) > old(ncalls(strings.EqualFold)) + 8 ==> same(callarg(strings.EqualFold, old(ncalls(strings.EqualFold)) + 8, 0), levelStr) && callarg(LevelFieldMarshalFunc, old(ncalls(LevelFieldMarshalFunc)) + 8, 0) == NoLevel && same(callarg(strings.EqualFold, old(ncalls(strings.EqualFold)) + 8, 1), callres(LevelFieldMarshalFunc, old(ncalls(LevelFieldMarshalFunc)) + 8, 0))
+//@   ensures !callres(strings.EqualFold, old(ncalls(strings.EqualFold)) + 0, 0) && !callres(strings.EqualFold, old(ncalls(strings.EqualFold)) + 1, 0) && !callres(strings.EqualFold, old(ncalls(strings.EqualFold)) + 2, 0) && !callres(strings.EqualFold, old(ncalls(strings.EqualFold)) + 3, 0) && !callres(strings.EqualFold, old(ncalls(strings.EqualFold)) + 4, 0) && !callres(strings.EqualFold, old(ncalls(strings.EqualFold)) + 5, 0) && !callres(strings.EqualFold, old(ncalls(strings.EqualFold)) + 6, 0) && !callres(strings.EqualFold, old(ncalls(strings.EqualFold)) + 7, 0) && !callres(strings.EqualFold, old(ncalls(strings.EqualFold)) + 8, 0) ==> ncalls(strconv.Atoi) == old(ncalls(strconv.Atoi)) + 1 && same(callarg(strconv.Atoi, old(ncalls(strconv.Atoi)), 0), levelStr)
+//@   ensures !callres(strings.EqualFold, old(ncalls(strings.EqualFold)) + 0, 0) && !callres(strings.EqualFold, old(ncalls(strings.EqualFold)) + 1, 0) && !callres(strings.EqualFold, old(ncalls(strings.EqualFold)) + 2, 0) && !callres(strings.EqualFold, old(ncalls(strings.EqualFold)) + 3, 0) && !callres(strings.EqualFold, old(ncalls(strings.EqualFold)) + 4, 0) && !callres(strings.EqualFold, old(ncalls(strings.EqualFold)) + 5, 0) && !callres(strings.EqualFold, old(ncalls(strings.EqualFold)) + 6, 0) && !callres(strings.EqualFold, old(ncalls(strings.EqualFold)) + 7, 0) && !callres(strings.EqualFold, old(ncalls(strings.EqualFold)) + 8, 0) && callres(strconv.Atoi, old(ncalls(strconv.Atoi)), 1) == nil && callres(strconv.Atoi, old(ncalls(strconv.Atoi)), 0) <= 127 && callres(strconv.Atoi, old(ncalls(strconv.Atoi)), 0) >= -128 ==> err == nil && res == int8(callres(strconv.Atoi, old(ncalls(strconv.Atoi)), 0))
+//@   ensures !callres(strings.EqualFold, old(ncalls(strings.EqualFold)) + 0, 0) && !callres(strings.EqualFold, old(ncalls(strings.EqualFold)) + 1, 0) && !callres(strings.EqualFold, old(ncalls(strings.EqualFold)) + 2, 0) && !callres(strings.EqualFold, old(ncalls(strings.EqualFold)) + 3, 0) && !callres(strings.EqualFold, old(ncalls(strings.EqualFold)) + 4, 0) && !callres(strings.EqualFold, old(ncalls(strings.EqualFold)) + 5, 0) && !callres(strings.EqualFold, old(ncalls(strings.EqualFold)) + 6, 0) && !callres(strings.EqualFold, old(ncalls(strings.EqualFold)) + 7, 0) && !callres(strings.EqualFold, old(ncalls(strings.EqualFold)) + 8, 0) && (callres(strconv.Atoi, old(ncalls(strconv.Atoi)), 1) != nil || callres(strconv.Atoi, old(ncalls(strconv.Atoi)), 0) > 127 || callres(strconv.Atoi, old(ncalls(strconv.Atoi)), 0) < -128) ==> err != nil && res == NoLevel
+
+//@ func (*Level).UnmarshalText(l, text) err
+//@   props C04
+//@   arith int
+//@   ensures l != nil ==> ncalls(ParseLevel) == old(ncalls(ParseLevel)) + 1 && eqbytes(callarg(ParseLevel, old(ncalls(ParseLevel)), 0), text) && deref(l) == callres(ParseLevel, old(ncalls(ParseLevel)), 0) && err == callres(ParseLevel, old(ncalls(ParseLevel)), 1)
+//@   ensures l == nil ==> err != nil && ncalls(ParseLevel) == old(ncalls(ParseLevel))
+//@ track ParseLevel
+
+// ---------------------------------------------------------------------------
+// writer.go: constructor of the fan-out writer
+
+//@ func MultiLevelWriter(writers) res
+//@   props C14
+//@   arith int
+//@   requires forall k in 0..len(writers): writers[k] != nil
+//@   ensures typeis(res, "multiLevelWriter") && len(dyn(res, "multiLevelWriter").writers) == len(writers)
+//@   ensures forall k in 0..len(writers): dyn(res, "multiLevelWriter").writers[k] != nil
+//@   loop 1:
+//@     invariant 0 <= rangeindex + 1 && rangeindex + 1 <= len(writers)
+//@     invariant len(lwriters) == rangeindex + 1 && (forall k in 0..rangeindex+1: lwriters[k] != nil)
